@@ -276,6 +276,8 @@ def run(ctx):
         else:
             st["agreed"] += 1
             st["hist"]["where_expr"] += 1
+    from .common import replay_generic_known
+    replay_generic_known(ctx, 'C15')
     ctx.coverage.update(
         evaluations=st["evaluations"], distinct_nontrivial=len(st["distinct"]), traces_validated_against_impl=st["agreed"],
         rule="arithmetic expressions to depth 4 over integer literals, size, hardlinks, length(name), unary minus on literals/columns/calls, operators + - * / % and their word aliases, minimal and redundant brackets in both styles x select lists of 1-5 expressions (deliberately including pairs that differ only in the operator or in the bracket placement) on a tree with sizes 0, 7, 10, 1000, 4097, 2^33+1: every column must equal the binary64 value of its own expression (precedence, left associativity, brackets, unary minus), must be the same when selected alone, and must equal the model pipeline (Lexer -> Parser -> Eval with the regenerated operator table); WHERE on an expression returns exactly the entries whose value satisfies it. non-trivial = a select list of at least two expressions",
